@@ -54,7 +54,8 @@ Pull(v, rts) == IF Len(rts) = 0 THEN v
                 ELSE Pull(IF Skip(Head(rts)) THEN v ELSE Div(Sub(v, Q(Head(rts))), Q(10)), Tail(rts))
 Tagged(v, ts) == Pull(Push(v, ts), Reverse(ts))
 \* weights of the (stub) weighting algorithm for n members: dyadic, so that the weighted sum is exact in floating point
-OnW(n) == CASE n = 1 -> << Q(1) >> [] n = 2 -> << Frac(1, 4), Frac(3, 4) >> [] OTHER -> << Frac(1, 4), Frac(1, 4), Frac(1, 2) >>
+\* (they do not sum to one -- like non-negative least-squares weights: the forecast is the plain weighted sum)
+OnW(n) == CASE n = 1 -> << Frac(1, 2) >> [] n = 2 -> << Frac(1, 4), Frac(1, 2) >> [] OTHER -> << Frac(1, 2), Frac(1, 4), Frac(1, 8) >>
 RECURSIVE Val(_, _, _, _)
 \* forecast of tree tr from cutoff c for the i-th of nfh requested steps; mk = number of meta-predict calls so far
 Val(tr, c, i, mk) ==
